@@ -296,7 +296,7 @@ def gen_confine(rnd):
         for key in ('pid', 'childpid'):
             if rnd.random() < (.6 if key == 'pid' else .3):
                 r[key] = rnd.choice(['own', 'own2', 'other', 'child', 'grandchild', 'foreign', 'init', 'dead', 'none',
-                                     'otherchild', 'zero', 'zero', 'false', 'empty'])
+                                     'otherchild', 'zero', 'zero', 'false', 'empty', 'orphan', 'orphan', 'ownorphan'])
         if rnd.random() < .3:
             r['children'] = True
         if rnd.random() < .3:
@@ -307,10 +307,11 @@ def gen_confine(rnd):
             r.pop('recursive', None)
             r['graceful_timeout'] = 0.2
         reqs.append(r)
+    sc = rnd.random() < .5
     return {'watchers': [{'name': 'a', 'numprocesses': 2, 'graceful_timeout': 0.3, 'beh': [{'*': ['ignore']}],
-                          'kids': kids},
+                          'kids': kids, 'stop_children': sc},
                          {'name': 'b', 'numprocesses': 1, 'graceful_timeout': 0.3, 'beh': [{'*': ['ignore']}],
-                          'kids': kids}],
+                          'kids': kids, 'stop_children': sc}],
             'state': state, 'reqs': reqs}
 
 
@@ -358,6 +359,10 @@ def _confine(w, h, res):
                 return initp.pid
             if sel == 'dead':
                 return dead.pid
+            if sel in ('orphan', 'ownorphan'):
+                # a still-running former child of an already dead worker (re-parented to init)
+                tg = 'kid:' + simhist.tag_of(other if sel == 'orphan' else name)
+                return next((c.pid for c in k.procs.values() if c.tag == tg and c.state == 'running' and c.ppid == 1), 39994)
             if sel == 'zero':
                 return 0
             if sel == 'false':
